@@ -101,6 +101,13 @@ static void run_call(const KV *kv, const char *f)
 	} else if (!strcmp(f, "hmac")) {
 		size_t n, kl; uint8_t *m = kv_hex(kv, "msg", &n), *k = kv_hex(kv, "key", &kl); vt_bytes("in", m, n); vt_bytes("key", k, kl);
 		rc = hmac(dg(alg), k, kl, m, n, out, &outl);
+		// the verifying variant of finish: accepts this MAC and nothing that differs from it, however the difference is distributed (-77 / -78 tell the judge otherwise)
+		if (rc == 1 && outl >= 8) { HMAC_CTX hc; uint8_t t[64];
+			if (hmac_init(&hc, dg(alg), k, kl) == 1 && hmac_update(&hc, m, n) == 1 && hmac_finish_and_verify(&hc, out, outl) != 1) rc = -77;
+			for (int v = 0; v < 6 && rc == 1; v++) { memcpy(t, out, outl); size_t tl = outl;
+				if (v == 0) { t[0] ^= 0x80; t[1] ^= 0x80; } else if (v == 1) { t[0] ^= 0x40; t[1] ^= 0x40; t[2] ^= 0x40; t[3] ^= 0x40; } else if (v == 2) { uint8_t x = t[0]; t[0] = t[outl - 1]; t[outl - 1] = x; if (!memcmp(t, out, outl)) t[0] ^= 1; }
+				else if (v == 3) t[outl - 1] ^= 0x01; else if (v == 4) t[8] ^= 0x10; else tl = outl - 1;
+				if (hmac_init(&hc, dg(alg), k, kl) == 1 && hmac_update(&hc, m, n) == 1 && hmac_finish_and_verify(&hc, t, tl) == 1) rc = -78; } }
 	} else if (!strcmp(f, "pbkdf2")) {
 		size_t pl, sl; uint8_t *pw = kv_hex(kv, "pass", &pl), *salt = kv_hex(kv, "salt", &sl); long it = kv_int(kv, "iter", 1), ol = kv_int(kv, "outlen", 32);
 		vt_bytes("pass", pw, pl); vt_bytes("salt", salt, sl); vt_int("iter", it); vt_int("outlen", ol);
